@@ -165,3 +165,39 @@ func CallsDeep(in ssa.Instruction, pred func(ssa.CallInstruction) bool) bool {
 	}
 	return false
 }
+
+// ControllingConds returns the branch conditions (with the required outcome) under which in executes: for every
+// block ending in an If from which in is reachable through exactly one of the two successors.
+func ControllingConds(in ssa.Instruction) []Assumption {
+	var out []Assumption
+	fn := in.Parent()
+	for _, b := range fn.Blocks {
+		if len(b.Instrs) == 0 {
+			continue
+		}
+		iff, ok := b.Instrs[len(b.Instrs)-1].(*ssa.If)
+		if !ok || b.Succs[0] == b.Succs[1] {
+			continue
+		}
+		viaTrue := !Reachable(in, ReachOpts{CutEdge: func(f, t *ssa.BasicBlock) bool { return f == b && t == b.Succs[1] }}) == false
+		_ = viaTrue
+		reachCutTrue := Reachable(in, ReachOpts{CutEdge: func(f, t *ssa.BasicBlock) bool { return f == b && t == b.Succs[0] }})
+		reachCutFalse := Reachable(in, ReachOpts{CutEdge: func(f, t *ssa.BasicBlock) bool { return f == b && t == b.Succs[1] }})
+		cond := iff.Cond
+		neg := false
+		for {
+			if u, ok := cond.(*ssa.UnOp); ok && u.Op == token.NOT {
+				cond, neg = u.X, !neg
+				continue
+			}
+			break
+		}
+		switch {
+		case !reachCutTrue && reachCutFalse:
+			out = append(out, Assumption{Var: BoolVar{Call: cond}, Val: !neg})
+		case reachCutTrue && !reachCutFalse:
+			out = append(out, Assumption{Var: BoolVar{Call: cond}, Val: neg})
+		}
+	}
+	return out
+}
